@@ -556,6 +556,11 @@ pub fn check_c14(ctx: &mut Ctx, d: &RunData, con: &Consist, time: &[f64], speed:
     let m = d.rows[0].mass_static.value + d.rows[0].mass_rot.value;
     let mut e_shadow = 0.0;
     let mut e_abs = 0.0;
+    let dyn_brake_capability: Option<f64> = d.b.spec.consist.loco_vec.iter().map(|l| match &l.loco_type {
+        PowertrainType::ConventionalLoco(c) => Some(c.edrv.pwr_out_max.value),
+        PowertrainType::BatteryElectricLoco(b2) => Some(b2.edrv.pwr_out_max.value),
+        _ => None,
+    }).sum();
     for k in 1..d.rows.len() {
         let r = &d.rows[k];
         let p = &d.rows[k - 1];
@@ -583,6 +588,13 @@ pub fn check_c14(ctx: &mut Ctx, d: &RunData, con: &Consist, time: &[f64], speed:
             let cprev = &crow[k - 1];
             let raw = r.pwr_accel.value + r.pwr_res.value;
             let lo = -cprev.pwr_dyn_brake_max.value.max(0.0);
+            // the capability the consist publishes must be what its units' drivetrains are rated for
+            if let Some(cap) = dyn_brake_capability {
+                ctx.count("obs.published_dyn_brake_capability");
+                if !close(cprev.pwr_dyn_brake_max.value, cap, 1e-12, 0.0) {
+                    bad(ctx, "dyn_brake_capability", format!("the consist publishes a dynamic-braking capability of {} W, its units' drivetrains are rated for {cap} W in total", cprev.pwr_dyn_brake_max.value));
+                }
+            }
             let rate_a = (p.pwr_whl_out.value + c.pwr_rate_out_max.value * p.dt.value).max(0.0); // as implemented: previous step size
             let rate_b = (p.pwr_whl_out.value + c.pwr_rate_out_max.value * dt).max(0.0); // this step's size
             let cands = [raw.max(lo).min(c.pwr_out_max.value.min(rate_a)), raw.max(lo).min(c.pwr_out_max.value.min(rate_b)), raw.max(lo).min(c.pwr_out_max.value)];
